@@ -125,8 +125,9 @@ func c10Parallel(n int, f func(i int)) {
 				if i >= n {
 					return
 				}
+				tok := guardBegin()
 				f(i)
-				guardProgress.Add(1)
+				guardEnd(tok)
 			}
 		}()
 	}
